@@ -15,7 +15,7 @@
   for a value-less branch instead of (nil, nil) which crashed mptForBytes.Prove;
   deserialize refuses an empty key header (was: index out of range) and an
   extension whose next link is empty (was: nil dereference in extension.prove).
-  With the fix `panic` is unreachable (Props: `prove_never_panics`).
+  With the fix `panic` is unreachable for any input (Props: `prove_never_panics`).
 -/
 import Goloop.Model.C17
 namespace Goloop.C18
